@@ -203,6 +203,11 @@ func (r *Run) deliverDgram(p *NetPolicy, d simrt.DgramState, overtakes bool) {
 		r.AddShape("gm")
 		return
 	}
+	if r.DgramFilter != nil && r.DgramFilter(d.Seq) {
+		// run-wide filter (applies under every policy, including RunFor's): e.g. a host that vanished
+		r.AddShape("gf")
+		return
+	}
 	ok := r.Net.DeliverDgram(d.Seq, false)
 	r.Logf("dgram %s delivered=%v", d.Desc(), ok)
 	r.AddShape("g" + bucket(d.Len))
